@@ -576,7 +576,8 @@ func sessionChargingReservation(
 			usedQuota := uint64(totalUsedUnit * ue.UnitCost[rg])
 			requestedQuota = uint64(uint32(unitUsage.RequestedUnit.TotalVolume) * ue.UnitCost[rg])
 			ue.ReservedQuota[rg] -= int64(usedQuota)
-			NeedReserveQuota := !(ue.ReservedQuota[rg] > 0)
+			// Top the reservation up to the requested quota whenever it falls short of it
+			NeedReserveQuota := ue.ReservedQuota[rg] < int64(requestedQuota)
 
 			if NeedReserveQuota {
 				reserveQuota := -uint64(ue.ReservedQuota[rg]) + requestedQuota
@@ -610,9 +611,18 @@ func sessionChargingReservation(
 				}
 			}
 
+			// Only quota that is actually reserved can be granted
+			availableQuota := requestedQuota
+			if ue.ReservedQuota[rg] < int64(availableQuota) {
+				availableQuota = 0
+				if ue.ReservedQuota[rg] > 0 {
+					availableQuota = uint64(ue.ReservedQuota[rg])
+				}
+			}
+
 			sur.ServiceRating = &charging_datatype.ServiceRating{
 				ServiceIdentifier: datatype.Unsigned32(rg),
-				MonetaryQuota:     datatype.Unsigned32(requestedQuota),
+				MonetaryQuota:     datatype.Unsigned32(availableQuota),
 				RequestSubType:    charging_datatype.REQ_SUBTYPE_RESERVE,
 			}
 
